@@ -165,3 +165,153 @@ def agreed_insert_triples(r, tier):
         out.append(make(r, r.choice(LEVELS), r.choice(RELATIONS), r.choice(REMOVALS),
                         before=r.choice([0, 1, 2, 3]), after=r.choice([0, 0, 1, 2, 3]), ncommon=r.choice([1, 2, 3])))
     return out
+
+
+# ---------------------------------------------------------------------------------------------------------------------
+# Family 2: one side DELETES a part of the notebook, the other side only makes TRANSIENT edits to that part.
+#
+# With transients ignored (the default, also what the web tool gets) the merger settles these without a conflict in favour
+# of the deletion -- in three places: a mapping key (cell metadata flag collapsed / scrolled / autoscroll removed vs its
+# value changed), a cell (cell deleted vs re-run: execution counts and flags only), an output (execute_result removed vs
+# its execution_count changed).  The losing side's edit does not show in the merged notebook, so only the choose-a-side
+# clauses can tell whether the decision still records it.  Varied: the level, which side deletes, the key(s) and values,
+# several keys at once incl. crossed roles (local deletes A and changes B, remote changes A and deletes B), unrelated
+# one-sided edits next to it on either side, cell kind / position / count, equal, pairwise different and upgraded (4.x ->
+# 4.5, ids on one side only) minors; controls where the edit is not (only) transient, which must end as a conflict.
+TD_LEVELS = ('key', 'cell', 'output')
+TD_FLAGS = {'collapsed': [True, False], 'scrolled': [True, False, 'auto'], 'autoscroll': [True, False, 'auto']}
+TD_CONTROL = {'name': ['intro', 'setup', 'plots'], 'hide_input': [True, False], 'editable': [True, False]}
+TD_MINORS = ('same', 'mixed', 'upgrade')
+
+
+def _td_minors(r, mode):
+    """-> (base, local, remote) minors"""
+    if mode == 'same':
+        m = r.choice([0, 1, 2, 3, 4, 4, 5, 5]); return (m, m, m)
+    if mode == 'mixed': return tuple(r.sample([0, 1, 2, 3, 4], 3))
+    b = r.choice([0, 2, 3, 4, 4]); o = r.choice([b, r.choice([0, 1, 2, 3, 4])])
+    return (b, 5, o) if r.random() < 0.5 else (b, o, 5)
+
+
+def _td_other(r, domain, v):
+    return r.choice([x for x in domain if x != v])
+
+
+def _td_side(base_cells, minor, bminor, edit):
+    """one side: a copy of the base cells (each carrying its base index in '_k'), edited, ids given on an upgrade"""
+    cells = copy.deepcopy(base_cells)
+    edit(cells)
+    for c in cells:
+        k = c.pop('_k')
+        if minor >= 5 and bminor < 5: c['id'] = 'cell-%02d' % k
+    return {'cells': cells, 'metadata': {}, 'nbformat': 4, 'nbformat_minor': minor}
+
+
+def make_transient_vs_delete(r, level, deleter, minors='same', nkeys=1, crossed=False, control=False, keys=None):
+    """one triple (name, base, local, remote); `deleter` in ('local', 'remote') is the side that deletes"""
+    bm, lm, rmm = _td_minors(r, minors)
+    items = _Items(r, 'cells4'); items.minor = bm
+    ncells = r.choice([1, 2, 2, 3]); pos = r.randrange(ncells)
+    code_target = level != 'key' or r.random() < 0.7
+    cells = [items.cell(bm, ('code' if code_target else 'markdown') if i == pos else None) for i in range(ncells)]
+    for i, c in enumerate(cells): c['_k'] = i
+    tgt = cells[pos]
+    n0 = r.randint(1, 30); n1 = n0 + r.randint(1, 9)
+    tag = []                                   # what was varied, for the name
+
+    def find(cs):
+        for c in cs:
+            if c['_k'] == pos: return c
+
+    def edit_other_cell(cs):                   # an unrelated one-sided edit elsewhere (or a notebook-safe tag when alone)
+        others = [c for c in cs if c['_k'] != pos]
+        if others: others[0]['metadata']['note'] = 'reviewed'
+        elif find(cs) is not None: find(cs)['metadata']['tags'] = ['reviewed']
+
+    del_edits = []; ed_edits = []              # lists of functions on the side's cell list
+    if level == 'key':
+        domain = dict(TD_CONTROL if control else TD_FLAGS)
+        keys = list(keys) if keys else r.sample(sorted(domain), min(nkeys, len(domain)))
+        if r.random() < 0.5: tgt['metadata']['tags'] = ['keep']
+        if code_target and r.random() < 0.5: tgt['execution_count'] = n0
+        for i, k in enumerate(keys):
+            old = r.choice(domain[k]); new = _td_other(r, domain[k], old)
+            tgt['metadata'][k] = old
+            drop = lambda cs, k=k: find(cs)['metadata'].pop(k)
+            ch = lambda cs, k=k, new=new: find(cs)['metadata'].__setitem__(k, new)
+            swapped = crossed and i >= 1       # crossed roles from the second key on
+            (ed_edits if swapped else del_edits).append(drop)
+            (del_edits if swapped else ed_edits).append(ch)
+        tag.append('+'.join(keys) + ('-crossed' if crossed and len(keys) > 1 else ''))
+        x = r.choice(['none', 'none', 'other', 'name'])
+        if x == 'other': del_edits.append(edit_other_cell)
+        if x == 'name' and 'name' not in keys: del_edits.append(lambda cs: find(cs)['metadata'].__setitem__('name', 'kept-cell'))
+        y = r.choice(['none', 'none', 'rerun', 'label'])
+        if y == 'rerun' and code_target: ed_edits.append(lambda cs: find(cs).__setitem__('execution_count', n1))
+        if y == 'label': ed_edits.append(lambda cs: find(cs)['metadata'].__setitem__('label', 'L1'))
+        tag.append('del-%s,ed-%s' % (x, y))
+    else:
+        res = {'output_type': 'execute_result', 'data': {'text/plain': _fill(r, 'Out[%d]: <result>')}, 'metadata': {}, 'execution_count': n0}
+        nout = r.choice([1, 2, 3]) if level == 'output' else r.choice([0, 1, 2])
+        outs = [items.output() for _ in range(max(nout - 1, 0))]
+        j = r.randrange(len(outs) + 1)
+        if nout: outs.insert(j, res)
+        tgt['outputs'] = outs; tgt['execution_count'] = n0
+        for k in r.sample(sorted(TD_FLAGS), r.choice([0, 1, 2])): tgt['metadata'][k] = r.choice(TD_FLAGS[k])
+        def bump_out(cs): find(cs)['outputs'][j]['execution_count'] = n1
+        def bump_cell(cs): find(cs)['execution_count'] = n1
+        if level == 'cell':
+            del_edits.append(lambda cs: cs.remove(find(cs)))
+            def flag_change(cs):
+                m = find(cs)['metadata']; k = sorted(k for k in m if k in TD_FLAGS)[0]; m[k] = _td_other(r, TD_FLAGS[k], m[k])
+            def flag_add(cs):
+                m = find(cs)['metadata']; k = sorted(k for k in TD_FLAGS if k not in m)[0]; m[k] = r.choice(TD_FLAGS[k])
+            def flag_remove(cs):
+                m = find(cs)['metadata']; m.pop(sorted(k for k in m if k in TD_FLAGS)[0])
+            have = [k for k in tgt['metadata'] if k in TD_FLAGS]
+            pool = [('ec', bump_cell), ('flag-add', flag_add)]
+            if nout: pool.append(('out-ec', bump_out))
+            if have: pool += [('flag-change', flag_change), ('flag-remove', flag_remove)] if len(have) > 1 else [r.choice([('flag-change', flag_change), ('flag-remove', flag_remove)])]
+            picked = r.sample(pool, r.randint(1, len(pool)))
+            picked.sort(key=lambda p: p[0] != 'flag-change' and p[0] != 'flag-remove')      # edits of present flags before a flag is added
+            for nm, f in picked: ed_edits.append(f)
+            tag.append('+'.join(sorted(nm for nm, _ in picked)))
+            if control: ed_edits.append(lambda cs: find(cs)['metadata'].__setitem__('tags', ['changed']))
+        else:
+            del_edits.append(lambda cs: find(cs)['outputs'].pop(j))
+            ed_edits.append(bump_out)
+            both = r.random() < 0.5
+            if both: ed_edits.append(bump_cell)
+            tag.append('out%dof%d%s' % (j, nout, '+ec' if both else ''))
+            if control: ed_edits.append(lambda cs: find(cs)['outputs'][j]['metadata'].__setitem__('isolated', True))
+        if r.random() < 0.3: del_edits.append(edit_other_cell); tag.append('del-other')
+
+    def apply_all(fs):
+        def go(cs):
+            for f in fs: f(cs)
+        return go
+    sides = {'del': apply_all(del_edits), 'ed': apply_all(ed_edits)}
+    b = _td_side(cells, bm, bm, lambda cs: None)
+    l = _td_side(cells, lm, bm, sides['del' if deleter == 'local' else 'ed'])
+    rm = _td_side(cells, rmm, bm, sides['del' if deleter == 'remote' else 'ed'])
+    name = 'transdel:%s%s:%s-deletes:%s@4.%d%d%d' % (level, '-control' if control else '', deleter, ':'.join(tag), bm, lm, rmm)
+    return (name, b, l, rm)
+
+
+def transient_vs_delete_triples(r, tier):
+    """systematic part: every level x deleting side (every flag for the mapping level), crossed roles, one control per level;
+    sampled part: the other dimensions (several keys, minors, extras, sizes)"""
+    out = []
+    for deleter in ('remote', 'local'):
+        for k in sorted(TD_FLAGS):
+            out.append(make_transient_vs_delete(r, 'key', deleter, keys=[k]))
+        out.append(make_transient_vs_delete(r, 'key', deleter, nkeys=2, crossed=True))
+        out.append(make_transient_vs_delete(r, 'cell', deleter))
+        out.append(make_transient_vs_delete(r, 'output', deleter))
+    for level in TD_LEVELS:
+        out.append(make_transient_vs_delete(r, level, r.choice(['local', 'remote']), control=True))
+    for _ in range(14 if tier == 'quick' else 200):
+        level = r.choice(['key', 'key', 'cell', 'output'])
+        out.append(make_transient_vs_delete(r, level, r.choice(['local', 'remote']), minors=r.choice(TD_MINORS), nkeys=r.choice([1, 2, 3]),
+                                            crossed=r.random() < 0.3, control=r.random() < 0.15))
+    return out
